@@ -155,7 +155,10 @@ def main(argv=None):
   known_sigs = {f["sig"]: f for f in findings if f.get("property") == prop and "sig" in f}
   # deterministic probes for listed findings are run by the module's check through rec.violation();
   for sig, n in sorted(known.items()):
-    lines.append(f"KNOWN-FINDING: property={prop} {known_sigs[sig]['text'] if sig in known_sigs else sig} (seen {n}x)")
+    text = known_sigs[sig]["text"] if sig in known_sigs else sig
+    if text.startswith(f"property={prop} "):  # the file's text already starts with the property id
+      text = text[len(f"property={prop} "):]
+    lines.append(f"KNOWN-FINDING: property={prop} {text} (seen {n}x)")
 
   nviol = 0
   seen_paths = set()
